@@ -245,7 +245,7 @@ rx_shape!(rx_a_len12, false, 12, 0);
 //@h id=rx_a_len11 props=C05,C07 tier=quick build=dev-eu868 cost=20 timeout=900
 //@bounds Class A window; 11 bytes (one short of the minimum): must be rejected without effect
 rx_shape!(rx_a_len11, false, 11, 0);
-//@h id=rx_a_len30 props=C05,C06,C07,C08,C12 tier=quick build=dev-eu868 cost=90 timeout=900
+//@h id=rx_a_len30 props=C05,C06,C07,C08,C12 tier=quick build=dev-eu868 tbuilds=dev-eu433,dev-in865,dev-as923 cost=90 timeout=900
 //@bounds Class A window; 30 bytes, FOptsLen 0: FPort + 17-byte FRMPayload (two keystream blocks)
 //@assumes Session::handle_downlink_macs is stubbed by a no-op; AES/CMAC are uninterpreted functions
 rx_shape!(rx_a_len30, false, 30, 0);
